@@ -338,15 +338,39 @@ def rule_eq_allpaths(ctx):
         for fl in dfl:
             # blocks of eq in which field fl of self/other is read (directly, or handed to a method of the type that reads it)
             touch = set()
+            reads = False
+
+            def mentions(e):
+                return any(x[0] == 'field' and x[2] == fl and x[3] == adt for x in walk(e))
             for pt, role, pl, node in eq.places():
                 if any(isinstance(x, dict) and x.get('o') == adt and x.get('n') == fl for x in pl['pr']):
+                    reads = True
+            for pt, s in eq.points():
+                if s['k'] == 'assign' and s['r']['k'] == 'bin' and s['r']['op'] in ('Eq', 'Ne') and \
+                        (mentions(eq.expr_of_operand(s['r']['a'])) or mentions(eq.expr_of_operand(s['r']['b']))):
                     touch.add(pt[0])
             for pt, t in eq.calls():
                 c = t.get('callee')
                 cb = f.body((c.get('resolved') or c['path'])) if c else None
                 if cb is not None and cb.d.get('impl_adt') == adt and fl in fields_touched(f, cb, adt):
                     touch.add(pt[0])
-            if not touch:
+                    continue
+                if not c or not any(mentions(eq.expr_of_operand(a)) for a in t['args']):
+                    continue
+                if c['name'] in ('eq', 'ne', 'cmp', 'partial_cmp'):
+                    touch.add(pt[0])
+                elif c['name'] == 'ptr_eq' and t.get('t') is not None:
+                    # identity of the shared allocation: counts as a comparison on its true edge only
+                    nb = t['t']
+                    tt = eq.term(nb)
+                    if tt['k'] == 'switch' and tt['d']['k'] in ('copy', 'move') and tt['d']['p']['l'] == t['dest']['l']:
+                        true_t = tt['otherwise'] if any(v == 0 for v, _ in tt['targets']) else None
+                        if true_t is not None:
+                            touch.add(true_t)
+            if reads and not touch:
+                # read but never compared by == : every path to true skips it
+                touch = set()
+            elif not reads:
                 continue  # EQCOVER reports a field that is never compared
             reach = eq.reachable(0, blocked=touch | false_blocks)
             leak = [b_ for b_ in eq.return_blocks() if b_ in reach]
